@@ -2717,6 +2717,10 @@ pub fn check(
             experimental,
         );
 
+        #[cfg(fuellabs_sway_verif)]
+        if retrigger_compilation.is_some() {
+            sway_utils::verif::step("W.check", "\"site\":\"pkg\"");
+        }
         if retrigger_compilation
             .as_ref()
             .is_some_and(|b| b.load(std::sync::atomic::Ordering::SeqCst))
